@@ -516,7 +516,7 @@ def run_spec(args: dict, sandbox: str) -> dict:
     violations: list[dict] = []
     label = "+".join(f"{f['piece']}@{f['pos']}" for f in applied) or "fault-free"
     first = applied[0] if applied else {"piece": "none", "pos": "none"}
-    locus0 = f"{first['piece']}@{first['pos']}"
+    locus0 = first["pos"]  # the mechanism-level locus; the piece is in the detail and in the replay file
 
     def viol(kind: str, locus: str, detail: str) -> None:
         violations.append({"kind": kind, "locus": locus, "detail": f"[{label}] {detail}"})
@@ -588,7 +588,12 @@ def run_spec(args: dict, sandbox: str) -> dict:
                 continue
             if not _named(item, text, ops_all):
                 viol("affected-item-not-named", f"{locus0}:{item[0]}", f"{item} was omitted/changed (or holds the bad piece) but no diagnostic names it; diagnostics: {[d['header'] for d in diags][:4]}")
-        # nothing that remains refers to anything removed
+        # nothing that remains refers to anything removed: every relative import statement of every surviving
+        # module - also the lazy ones inside TYPE_CHECKING blocks and function bodies - must resolve to a file
+        dangling = dangling_relative_imports(t1)
+        if dangling:
+            rel0, tgt0 = dangling[0]
+            viol("survivor-refers-to-removed", f"{_fileclass(rel0)}->{_fileclass(tgt0)}", f"{rel0} imports {tgt0!r} which does not exist in out(D') (all: {dangling[:4]})")
         if faulted["tree"]:
             fails = genrun.import_all_modules(os.path.dirname(faulted["out"]), os.path.basename(faulted["out"]))
             if fails:
@@ -620,6 +625,28 @@ def run_spec(args: dict, sandbox: str) -> dict:
         "sample": {"faults": applied[:3], "cone": sorted(cone)[:8], "n_diag": None if diags is None else len(diags), "files_clean": len(t0), "files_faulted": len(t1),
                    "changed_items": sorted(changed_items)[:6]},
     }
+
+
+def dangling_relative_imports(tree: dict[str, bytes]) -> list[tuple[str, str]]:
+    out = []
+    files = set(tree)
+    for rel, data in sorted(tree.items()):
+        if not rel.endswith(".py"):
+            continue
+        pkg_parts = rel.split("/")[:-1]
+        for m in re.finditer(r"^[ \t]*from (\.+)([\w.]*) import ", data.decode("utf-8", "replace"), flags=re.M):
+            dots, mod = len(m.group(1)), m.group(2)
+            base = pkg_parts[: len(pkg_parts) - (dots - 1)] if dots > 1 else list(pkg_parts)
+            if dots - 1 > len(pkg_parts):
+                continue
+            target = base + [x for x in mod.split(".") if x]
+            cand1 = "/".join(target) + ".py"
+            cand2 = "/".join(target + ["__init__.py"])
+            if not target:
+                continue
+            if cand1 not in files and cand2 not in files:
+                out.append((rel, "/".join(target)))
+    return out
 
 
 def _only_multipart_differs(a: bytes, b: bytes) -> bool:
